@@ -9,6 +9,7 @@ pub mod limiter;
 pub mod respq;
 pub mod selftest;
 pub mod sink;
+pub mod timerrt;
 pub mod topic;
 
 pub type Engine = fn(&Fields) -> Fields;
@@ -30,7 +31,7 @@ pub fn run_stream(
 ) -> bool {
     // async engines: all cases of the input run on one single-threaded ntex runtime
     let lines: Vec<String> = match name {
-        "respq" | "selftest" | "sink3" | "sink5" | "inb3" | "inb5" | "hs" | "iostate" => {
+        "respq" | "selftest" | "sink3" | "sink5" | "inb3" | "inb5" | "hs" | "iostate" | "timerrt" => {
             let mut text = String::new();
             inp.read_to_string(&mut text).unwrap();
             text.lines().map(str::to_string).collect()
@@ -40,6 +41,12 @@ pub fn run_stream(
     if name == "sink3" || name == "sink5" {
         // own runtime loop: a panic escaping the per-task guards ends one case, not the run
         for l in sink::run_lines(name == "sink5", lines) {
+            writeln!(out, "{l}").unwrap();
+        }
+        return true;
+    }
+    if name == "timerrt" {
+        for l in timerrt::run_lines(lines) {
             writeln!(out, "{l}").unwrap();
         }
         return true;
